@@ -22,17 +22,34 @@ type StreamSrv struct {
 	prodDone map[int]bool
 	hctx     map[int]context.Context
 	buffered int
+	// syncK > 0: every Sub handler waits until syncK handlers have started (so that they reach
+	// the channel registration together), and producers start only when the scenario allows
+	syncK   int
+	entered int
 	// keepGoing: the producer ignores ctx cancellation for one more value
 	obeyCtx bool
+}
+
+func (h *StreamSrv) Entered() int {
+	h.mu.Lock()
+	defer h.mu.Unlock()
+	return h.entered
 }
 
 func (h *StreamSrv) Sub(ctx context.Context, id int, n int) (<-chan int, error) {
 	out := make(chan int, h.buffered)
 	h.mu.Lock()
 	h.hctx[id] = ctx
+	h.entered++
 	h.mu.Unlock()
+	if h.syncK > 0 {
+		h.s.Env("sub-go")
+	}
 	h.s.Go(fmt.Sprintf("prod-%d", id), func() {
 		defer close(out)
+		if h.syncK > 0 {
+			h.s.Env("prod-go")
+		}
 		for j := 0; j < n; j++ {
 			v := id*1000 + j
 			if h.obeyCtx {
@@ -125,6 +142,9 @@ func init() {
 				add("k1-l40-late", 0, map[string]int{"k": 1, "l0": 40, "mode": 1})
 				// three live subscriptions, the oldest ends first (index bookkeeping of the forwarder)
 				add("k3-l1,3,3-attentive", 1, map[string]int{"k": 3, "l0": 1, "l1": 3, "l2": 3, "mode": 0})
+				add("k3-l1,3,3-sync", 1, map[string]int{"k": 3, "l0": 1, "l1": 3, "l2": 3, "mode": 0, "sync": 1})
+				add("k2-l3,3-sync", 1, map[string]int{"k": 2, "l0": 3, "l1": 3, "mode": 0, "sync": 1})
+				add("k2-l1,3-attentive-desc", 1, map[string]int{"k": 2, "l0": 1, "l1": 3, "mode": 0, "desc": 1})
 				return ps
 			}
 			add("k2-l1,3-attentive", 2, map[string]int{"k": 2, "l0": 1, "l1": 3, "mode": 0})
@@ -141,6 +161,11 @@ func init() {
 			add("k2-l40,3-stalled0", 0, map[string]int{"k": 2, "l0": 40, "l1": 3, "mode": 2})
 			add("k3-l1,3,3-attentive", 2, map[string]int{"k": 3, "l0": 1, "l1": 3, "l2": 3, "mode": 0})
 			add("k3-l3,1,3-attentive", 1, map[string]int{"k": 3, "l0": 3, "l1": 1, "l2": 3, "mode": 0})
+			add("k3-l1,3,3-sync", 2, map[string]int{"k": 3, "l0": 1, "l1": 3, "l2": 3, "mode": 0, "sync": 1})
+			add("k3-l3,1,3-sync", 2, map[string]int{"k": 3, "l0": 3, "l1": 1, "l2": 3, "mode": 0, "sync": 1})
+			add("k2-l3,3-sync", 2, map[string]int{"k": 2, "l0": 3, "l1": 3, "mode": 0, "sync": 1})
+			add("k2-l1,3-attentive-desc", 2, map[string]int{"k": 2, "l0": 1, "l1": 3, "mode": 0, "desc": 1})
+			add("k1-l3-attentive-desc", 3, map[string]int{"k": 1, "l0": 3, "mode": 0, "desc": 1})
 			return ps
 		},
 		Body: streamBody,
@@ -217,6 +242,17 @@ func streamBody(s *vsched.Sched, p Param) {
 		s.Violate("HARNESS: setup: %v", err)
 		return
 	}
+	if p.I("sync") == 1 {
+		sw.srv.syncK = k
+	}
+	allReturned := func() bool {
+		for _, st := range sw.subs {
+			if _, _, ret, _, _ := st.snapshot(); !ret {
+				return false
+			}
+		}
+		return true
+	}
 	obs := NewObs()
 	s.Teardown = func() {
 		for _, c := range sw.cancel {
@@ -225,6 +261,12 @@ func streamBody(s *vsched.Sched, p Param) {
 		sw.w.Teardown()
 	}
 	s.EnvEnabled = func(name string) bool {
+		switch name {
+		case "sub-go": // all handlers have started: they race to register their channels
+			return sw.srv.Entered() >= k
+		case "prod-go": // all subscriptions are established before any value flows
+			return allReturned()
+		}
 		if strings.HasPrefix(name, "consume-") {
 			var i int
 			fmt.Sscanf(name, "consume-%d", &i)
